@@ -3,6 +3,7 @@
 From Coq Require Import List NArith.
 From TarsV Require Import Base.Hex Frame.Framing Frame.FramingProofs.
 From TarsV Require Xlate.TarsRequestEquiv.
+From TarsV Require Import Xlate.GoSem Gen.Translated Xlate.RecvEquiv.
 Import ListNotations.
 Open Scope N_scope.
 
@@ -44,6 +45,19 @@ Theorem C07_short_length_rejected : forall max l junk pks chunks,
   concat chunks = concat pks ++ be32 l ++ junk -> recv_loop max [] chunks = (pks, None).
 Proof. exact FramingProofs.C07_short_length_rejected. Qed.
 
+(* the receive loops of the code are that model: the Gallina text generated from the current source of tcpHandler.recv
+   (server) and connection.recv (client) - what they do with every chunk conn.Read returns, ParsePackage being
+   protocol.TarsRequest - iterated over the successful reads (buffer, n), hands over exactly the packages recv_loop
+   delivers, in that order, keeps the same remainder, and gives the connection up exactly when recv_loop closes it *)
+Theorem C07_server_loop_is_model : forall max reads cur out, Forall read_ok reads ->
+  run_reads tr_srv_recv_chunk max cur reads out =
+  (out ++ fst (recv_loop max cur (map chunk_of reads)), snd (recv_loop max cur (map chunk_of reads))).
+Proof. exact RecvEquiv.srv_recv_is_recv_loop. Qed.
+Theorem C07_client_loop_is_model : forall max reads cur out, Forall read_ok reads ->
+  run_reads tr_cli_recv_chunk max cur reads out =
+  (out ++ fst (recv_loop max cur (map chunk_of reads)), snd (recv_loop max cur (map chunk_of reads))).
+Proof. exact RecvEquiv.cli_recv_is_recv_loop. Qed.
+
 Print Assumptions C07_reassembly.
 Print Assumptions C07_partial.
 Print Assumptions C07_error.
@@ -51,3 +65,5 @@ Print Assumptions C07_segmentation_independent.
 Print Assumptions C07_max_accepted.
 Print Assumptions C07_max_plus_one_rejected.
 Print Assumptions C07_short_length_rejected.
+Print Assumptions C07_server_loop_is_model.
+Print Assumptions C07_client_loop_is_model.
